@@ -19,6 +19,7 @@ pub fn part(t: &mut Toks) -> String {
     enum Op {
         D(u64, u64, u64, u64, Vec<u64>),
         A(u64),
+        Z(u64),
         C,
     }
     let nops = t.usize();
@@ -34,6 +35,7 @@ pub fn part(t: &mut Toks) -> String {
                 Op::D(v, s, e, last, (0..k).map(|_| t.u64()).collect())
             }
             "A" => Op::A(t.u64()),
+            "Z" => Op::Z(t.u64()),
             "C" => Op::C,
             x => panic!("bad op {x}"),
         });
@@ -67,6 +69,14 @@ pub fn part(t: &mut Toks) -> String {
                 }
                 Op::A(v) => {
                     let _ = process_fully_buffered_changes(&agent, &bookie, actor, CrsqlDbVersion(v), tmo).await;
+                }
+                Op::Z(v) => {
+                    // a peer that holds the version says it has no live change left
+                    if !versions.contains(&v) {
+                        versions.push(v);
+                    }
+                    let c = agentkit::empty(actor, v, v, 1);
+                    let _ = process_multiple_changes(agent.clone(), bookie.clone(), vec![(c, ChangeSource::Sync, Instant::now())], tmo).await;
                 }
                 Op::C => {
                     while let Ok(req) = rx_clear.try_recv() {
